@@ -7,7 +7,7 @@ import PdfModel.Lemmas.DerivePreserve
 
 namespace Derive
 
-theorem derase_comm (k k' : String) : ∀ d : Dict, derase k (derase k' d) = derase k' (derase k d) := by
+theorem derase_exchange (k k' : String) : ∀ d : Dict, derase k (derase k' d) = derase k' (derase k d) := by
   intro d
   induction d with
   | nil => simp [derase]
@@ -24,7 +24,7 @@ theorem derase_comm (k k' : String) : ∀ d : Dict, derase k (derase k' d) = der
 
 /-- the field loop does not look at an entry whose key is not the key of a field: taking it out beforehand takes it
     out of what is left over (and of the catch-all), nothing else -/
-theorem readFields_derase (cfg : Cfg) (sem : Sem) (env : Env) (k : String) :
+theorem readFields_minus_key (cfg : Cfg) (sem : Sem) (env : Env) (k : String) :
     ∀ (fs : List Field) (d : Dict) (acc : List Val) (oth : Option Dict), k ∉ fkeys fs →
       readFields cfg sem env fs (derase k d) acc (oth.map (derase k)) =
         match readFields cfg sem env fs d acc oth with
@@ -58,10 +58,10 @@ theorem readFields_derase (cfg : Cfg) (sem : Sem) (env : Env) (k : String) :
         | error e => simp
         | ok v =>
           simp only
-          rw [derase_comm (f.key.getD "") k d]
+          rw [derase_exchange (f.key.getD "") k d]
           exact ih (derase (f.key.getD "") d) (acc ++ [v]) oth hkr
 
-theorem expectAll_derase (k : String) (d : Dict) :
+theorem expectAll_minus_key (k : String) (d : Dict) :
     ∀ cs : List (String × String), k ∉ cs.map (·.1) → expectAll (derase k d) cs = expectAll d cs := by
   intro cs
   induction cs with
@@ -91,12 +91,12 @@ theorem readStructD_derase_type (cfg : Cfg) (sem : Sem) (env : Env) (S : Schema)
     have hd := F.distinctTags
     simp only [Schema.tagKeys, ht] at hd
     exact ((distinct_cons "Type" _).1 (by simpa using hd)).1
-  have hrf' := readFields_derase cfg sem env "Type" S.fields d [] none hnf
+  have hrf' := readFields_minus_key cfg sem env "Type" S.fields d [] none hnf
   simp only [Option.map_none, hrf] at hrf'
   have hoth := readFields_other cfg sem env S.fields d [] none vals dfin oth' F.noSkip F.last hrf
   have hany : (S.fields.any fun f => f.other) = S.hasOther := rfl
   simp only [readStructD, ht, expect, dget_derase_self, hreq, Bool.false_eq_true, if_false,
-    expectAll_derase "Type" d S.checks hnc, hch, hrf']
+    expectAll_minus_key "Type" d S.checks hnc, hch, hrf']
   cases ho : S.hasOther with
   | false =>
     rw [hany, ho] at hoth
